@@ -1,4 +1,4 @@
-import DcmVerif.Props.Source
+import DcmVerif.Props.SourceMeta
 import DcmVerif.Props.C04_wrap
 import DcmVerif.Proofs.Total
 /-! Property theorems for C04. Statements only; proofs are by reference to `Proofs/`. -/
